@@ -75,6 +75,57 @@ class Raised(Exception):
     """a callee raised on every path: the calling statement does not complete"""
 
 
+class _ChainEnv:
+    """the scopes a nested function can see, innermost first (its defining function's locals, then that function's own
+    enclosing scopes): reads find the first scope that binds the name, writes go to the scope that holds it"""
+
+    def __init__(self, *scopes):
+        self.scopes = [s_ for s_ in scopes if s_ is not None]
+
+    def _find(self, k):
+        for s_ in self.scopes:
+            if k in s_:
+                return s_
+        return None
+
+    def __contains__(self, k):
+        return self._find(k) is not None
+
+    def __getitem__(self, k):
+        s_ = self._find(k)
+        if s_ is None:
+            raise KeyError(k)
+        return s_[k]
+
+    def get(self, k, default=None):
+        s_ = self._find(k)
+        return s_[k] if s_ is not None else default
+
+    def __setitem__(self, k, v):
+        s_ = self._find(k)
+        (s_ if s_ is not None else self.scopes[0])[k] = v
+
+    def __iter__(self):
+        seen = set()
+        for s_ in self.scopes:
+            for k in s_:
+                if k not in seen:
+                    seen.add(k)
+                    yield k
+
+    def keys(self):
+        return list(iter(self))
+
+    def items(self):
+        return [(k, self[k]) for k in self]
+
+    def values(self):
+        return [self[k] for k in self]
+
+    def __len__(self):
+        return len(self.keys())
+
+
 class Frame:
     def __init__(self, fi: FunctionInfo, env: Dict[str, Val], depth: int, parent_env=None):
         self.fi = fi
@@ -829,6 +880,74 @@ class Interp:
             cache[fi.qualname] = hits
         return cache[fi.qualname]
 
+    def _enter_repo_cm(self, expr, env):
+        """`with cm(args) as v:` for a generator-based context manager of the package (@contextlib.contextmanager): the part
+        before its `yield` is executed now, v is what it yields, and the part after the yield (its `finally`) when the block
+        is left.  None when `expr` is not such a call or the generator has another shape (then the expression is evaluated as
+        any other)."""
+        if not isinstance(expr, ast.Call) or not self.frames:
+            return None
+        tgt = self.p.resolve(self.frames[-1].fi.module, expr.func, set(env) | set(self.frames[-1].parent_env or ()))
+        fi = self.p.functions.get(self.p.canonical(tgt)) if tgt else None
+        if fi is None or not isinstance(fi.node, ast.FunctionDef):
+            return None
+        decos = [self.p.resolve(fi.module, d.func if isinstance(d, ast.Call) else d, ()) for d in fi.node.decorator_list]
+        if not any(d in ("contextlib.contextmanager",) for d in decos if d):
+            return None
+        body = list(fi.node.body)
+        if body and isinstance(body[0], ast.Expr) and isinstance(body[0].value, ast.Constant) and isinstance(body[0].value.value, str):
+            body = body[1:]
+
+        def yield_of(st_):
+            v_ = st_.value if isinstance(st_, (ast.Expr, ast.Assign)) else None
+            return v_ if isinstance(v_, ast.Yield) else None
+        pre = post = yv = None
+        for i, st_ in enumerate(body):
+            if yield_of(st_) is not None:
+                pre, yv, post = body[:i], yield_of(st_), body[i + 1:]
+                break
+            if isinstance(st_, ast.Try) and not st_.handlers and not st_.orelse and st_.body and yield_of(st_.body[-1]) is not None:
+                pre, yv, post = body[:i] + st_.body[:-1], yield_of(st_.body[-1]), list(st_.finalbody) + body[i + 1:]
+                break
+        n_y = sum(1 for x in ast.walk(fi.node) if isinstance(x, (ast.Yield, ast.YieldFrom)))
+        if yv is None or n_y != 1:
+            self.lose(f"context manager {fi.qualname}: a generator of a shape that is not followed (its set-up / clean-up is not executed)", expr)
+            return None
+        # bind the arguments
+        a = fi.node.args
+        params = [x.arg for x in a.posonlyargs + a.args]
+        cenv: Dict[str, Val] = {}
+        for k_, e_ in enumerate(expr.args):
+            if isinstance(e_, ast.Starred) or k_ >= len(params):
+                return None
+            cenv[params[k_]] = self.eval(e_, env)
+        for kw_ in expr.keywords:
+            if kw_.arg is None:
+                return None
+            cenv[kw_.arg] = self.eval(kw_.value, env)
+        dflt = dict(zip(params[len(params) - len(a.defaults):], a.defaults))
+        dflt.update({x.arg: d for x, d in zip(a.kwonlyargs, a.kw_defaults) if d is not None})
+        for nm, d in dflt.items():
+            if nm not in cenv:
+                cenv[nm] = self._eval_in_module(fi.module, d)
+        fr = Frame(fi, cenv, len(self.frames), None)
+        fr.path_base = len(self.path)
+        fr.outparams, fr.out_values = set(), {}
+
+        def run(stmts):
+            self.frames.append(fr)
+            try:
+                return self.exec_block(list(stmts), cenv)
+            finally:
+                self.frames.pop()
+        run(pre)
+        self.frames.append(fr)
+        try:
+            val = self.eval(yv.value, cenv) if yv.value is not None else NoneV()
+        finally:
+            self.frames.pop()
+        return val, (lambda: run(post))
+
     def _bind_defaults(self, a: ast.arguments, env: dict) -> Dict[str, Val]:
         """default values are evaluated when the function object is created (`lambda x=x: ...` keeps the x of that moment;
         a free variable of the body is looked up when the body runs)"""
@@ -840,7 +959,12 @@ class Interp:
         return out
 
     def call_function(self, fi: FunctionInfo, pos: List[Val], kwargs: Dict[str, Val], node, closure_env=None,
-                      default_vals=None) -> Val:
+                      default_vals=None, _raw=False) -> Val:
+        if not _raw and closure_env is None and fi.qualname in self.p.functions and getattr(fi.node, "decorator_list", None):
+            # an entry point a rule calls directly is reached through its decorators like any other call
+            deco = self._decorated(FuncV("repo", fi.qualname))
+            if deco is not None:
+                return self.apply(deco, list(pos), dict(kwargs), node, {})
         depth = len(self.frames)
         if depth >= self.cfg.max_depth:
             return self.unknown("inlining-depth", node)
@@ -1168,13 +1292,24 @@ class Interp:
                 return self.exec_block(st.finalbody, env)
             return env
         if isinstance(st, (ast.With, ast.AsyncWith)):
+            resumes = []
             for item in st.items:
-                v = self.eval(item.context_expr, env)
+                cm = self._enter_repo_cm(item.context_expr, env)
+                if cm is not None:
+                    v, resume = cm
+                    resumes.append(resume)
+                else:
+                    v = self.eval(item.context_expr, env)
                 if item.optional_vars is not None:
                     self.assign(item.optional_vars, v, env, st)
-            return self.exec_block(st.body, env)
+            out = self.exec_block(st.body, env)
+            for resume in reversed(resumes):
+                resume()   # what follows the `yield` of the package's context manager (its clean-up) runs when the block is left
+            return out
         if isinstance(st, (ast.FunctionDef, ast.AsyncFunctionDef)):
-            fv_ = FuncV("local", st, closure=env)
+            outer_ = self.frames[-1].parent_env if self.frames else None
+            fv_ = FuncV("local", st, closure=_ChainEnv(env, outer_) if outer_ is not None else env)
+            fv_.home = self.frames[-1].fi if self.frames else None   # the function (hence the module) it was defined in
             fv_.default_vals = self._bind_defaults(st.args, env)
             env[st.name] = fv_
             return env
@@ -2480,7 +2615,7 @@ class Interp:
                 return self.attribute(holder, name, node, {})   # `_R.T`, `_TABLE.shape` of a module-level array
         if tgt.split(".")[0] in ("numpy", "scipy", "sklearn", "matplotlib", "builtins", "warnings", "itertools",
                                  "operator", "copy", "bisect", "hopcroftkarp", "joblib", "math", "typing", "numbers",
-                                 "functools", "collections", "dataclasses", "logging", "time"):
+                                 "functools", "collections", "dataclasses", "logging", "time", "inspect", "contextlib"):
             if tgt in prims.TYPES:
                 return FuncV("prim", tgt)
             return FuncV("prim", tgt)
@@ -2654,7 +2789,9 @@ class Interp:
             return dv
         if isinstance(n, ast.Lambda):
             fr = self.frames[-1]
-            fv_ = FuncV("lambda", n, closure=env)
+            outer_ = self.frames[-1].parent_env if self.frames else None
+            fv_ = FuncV("lambda", n, closure=_ChainEnv(env, outer_) if outer_ is not None else env)
+            fv_.home = self.frames[-1].fi if self.frames else None
             fv_.default_vals = self._bind_defaults(n.args, env)
             return fv_
         if isinstance(n, ast.JoinedStr):
@@ -3026,6 +3163,65 @@ class Interp:
             return FuncV("method", attr, bound_self=base)
         return FuncV("method", attr, bound_self=base)
 
+    _TRANSPARENT_DECOS = {"builtins.staticmethod", "builtins.classmethod", "builtins.property", "functools.wraps", "functools.lru_cache",
+                          "functools.cache", "functools.cached_property", "abc.abstractmethod", "typing.overload", "typing.final",
+                          "deprecated.deprecated", "deprecated.classic.deprecated", "deprecated.sphinx.deprecated",
+                          "numpy.deprecate", "typing.no_type_check", "functools.singledispatch", "contextlib.contextmanager"}
+
+    def _decorated(self, fv: FuncV) -> Optional[Val]:
+        """what the decorators of a repository function turn it into (None: nothing that changes a call).  A decorator defined
+        in the package is applied for real — `deco(func)` is evaluated and its result (usually a closure around `func`) is what
+        a call reaches; a decorator that cannot be followed makes the run inexact."""
+        fi = self.p.functions.get(fv.target)
+        node = getattr(fi, "node", None)
+        decos = list(getattr(node, "decorator_list", []) or [])
+        if not decos:
+            return None
+        cache = self.__dict__.setdefault("_deco_cache", {})
+        if fv.target in cache:
+            return cache[fv.target]
+        cache[fv.target] = None   # (re-entrance while the decorator itself runs reaches the raw function)
+        locs = ()
+        cur: Val = FuncV("repo", fv.target)
+        cur.raw = True
+        changed = False
+        for d in reversed(decos):
+            head = d.func if isinstance(d, ast.Call) else d
+            tgt = self.p.resolve(fi.module, head, locs)
+            tgt = self.p.canonical(tgt) if tgt else None
+            if tgt in self._TRANSPARENT_DECOS or (isinstance(head, ast.Attribute) and head.attr in ("setter", "getter", "deleter")):
+                continue
+            dv = None
+            if tgt is not None and tgt in self.p.functions:
+                dv = FuncV("repo", tgt)
+            if dv is None:
+                self.lose(f"decorator `{ast.unparse(d)[:60]}` of {fv.target} is not followed: the function is executed as written", node)
+                continue
+            try:
+                if isinstance(d, ast.Call):
+                    # a decorator factory: deco(args)(func)
+                    fr_env: dict = {}
+                    a_ = [self._eval_in_module(fi.module, x) for x in d.args]
+                    k_ = {k.arg: self._eval_in_module(fi.module, k.value) for k in d.keywords if k.arg}
+                    dv = self.apply(dv, a_, k_, d, fr_env)
+                cur = self.apply(dv, [cur], {}, d, {})
+                changed = True
+            except AnalysisError:
+                raise
+            except Exception as ex:   # pragma: no cover
+                self.lose(f"decorator `{ast.unparse(d)[:60]}` of {fv.target} could not be applied ({type(ex).__name__})", node)
+        cache[fv.target] = cur if changed else None
+        return cache[fv.target]
+
+    def _eval_in_module(self, module, expr) -> Val:
+        """an expression of module level (a decorator argument): constants and module-level names"""
+        if isinstance(expr, ast.Constant):
+            return self._eval(expr, {})
+        tgt = self.p.resolve(module, expr, ())
+        if tgt is not None:
+            return self.global_value(self.p.canonical(tgt), expr)
+        return self.unknown("decorator-argument", expr)
+
     def _class_attr(self, cls: str, attr: str, depth=0) -> Optional[Val]:
         """a name assigned in the class body (a constant table, a rotation matrix) read through the class or an instance;
         names of the same class body used by its expression are evaluated the same way"""
@@ -3223,6 +3419,12 @@ class Interp:
             if fv.kind == "partial":
                 inner, p_args, p_kw = fv.target
                 return self.apply(inner, list(p_args) + list(pos), dict(p_kw, **kwargs), n, env)
+            if fv.kind == "repo" and not getattr(fv, "raw", False) and fv.target not in (self.cfg.flags.get("stub_func") or {}):
+                # (a call a rule observes through a stub is observed under the public name, before any decorator runs)
+                deco = self._decorated(fv)
+                if deco is not None:
+                    # the name is bound to what the decorators made of the function: that is what a call reaches
+                    return self.apply(deco, ([fv.bound_self] if fv.bound_self is not None else []) + list(pos), kwargs, n, env)
             if fv.kind == "repo":
                 fi = self.p.functions[fv.target]
                 args = ([fv.bound_self] if fv.bound_self is not None else []) + pos
@@ -3235,7 +3437,7 @@ class Interp:
                     # a rule asked to observe this call instead of executing the callee
                     return stubs[fv.target](self, bound, n)
                 self._last_out = None
-                r_ = self.call_function(fi, args, kwargs, n)
+                r_ = self.call_function(fi, args, kwargs, n, _raw=True)
                 lo_ = self._last_out
                 self._last_out = None
                 if lo_ and lo_[0] is fi and isinstance(n, ast.Call):
@@ -3243,12 +3445,12 @@ class Interp:
                 return r_
             if fv.kind == "class":
                 return self.construct(fv.target, pos, kwargs, n)
+            home = getattr(fv, "home", None) or (self.frames[-1].fi if self.frames else None)
             if fv.kind == "lambda":
-                fi = FunctionInfo("<lambda>", "<lambda>", fv.target, self.frames[-1].fi.module)
+                fi = FunctionInfo("<lambda>", "<lambda>", fv.target, home.module)
                 return self.call_function(fi, pos, kwargs, n, closure_env=fv.closure, default_vals=getattr(fv, "default_vals", None))
             if fv.kind == "local":
-                fi = FunctionInfo(f"{self.frames[-1].fi.qualname}.<locals>.{fv.target.name}", fv.target.name, fv.target,
-                                  self.frames[-1].fi.module)
+                fi = FunctionInfo(f"{home.qualname}.<locals>.{fv.target.name}", fv.target.name, fv.target, home.module)
                 return self.call_function(fi, pos, kwargs, n, closure_env=fv.closure, default_vals=getattr(fv, "default_vals", None))
             if fv.kind == "prim":
                 h = self.prims.get(fv.target)
